@@ -68,11 +68,39 @@ def lexmax_component(e: ast.AST, i: int) -> Optional[Aff]:
     return None
 
 
-def channels(f: Func, index: Optional[RepoIndex] = None) -> Tuple[List[Aff], Dict[str, str]]:
+def _at_defaults(f: Func) -> Func:
+    """the function read with its None-defaulted options left out: the default-filling idiom
+    `if p is None: p = E` at the top level becomes `p = E` (call sites that pass the option are
+    read where they are, with the argument bound)"""
+    import copy
+    dflt = {p_ for p_, d in f.param_defaults().items()
+            if isinstance(d, ast.Constant) and d.value is None}
+    if not dflt:
+        return f
+    node = copy.deepcopy(f.node)
+    changed = False
+    for i, st in enumerate(node.body):
+        if isinstance(st, ast.If) and not st.orelse and len(st.body) == 1 and \
+                isinstance(st.body[0], ast.Assign) and len(st.body[0].targets) == 1 and \
+                isinstance(st.body[0].targets[0], ast.Name) and \
+                st.body[0].targets[0].id in dflt and \
+                src(st.test) == f'{st.body[0].targets[0].id} is None':
+            node.body[i] = st.body[0]
+            changed = True
+    if not changed:
+        return f
+    from ..normalise import normalise_function, ssa_params
+    return Func(f.name, f.module, normalise_function(ssa_params(node)), f.cls)
+
+
+def channels(f: Func, index: Optional[RepoIndex] = None,
+             cross: tuple = ()) -> Tuple[List[Aff], Dict[str, str]]:
     """affine forms of the elements of the np.array([...]) a function returns"""
     if index is not None:
         from ..view import view
-        w = view(index, f)[1]
+        if not cross:
+            f = _at_defaults(f)
+        w = view(index, f, cross=cross)[1]
     else:
         w = walk_function(f.node)
     env: Dict[str, Aff] = {}
@@ -319,7 +347,7 @@ def _same_channels_as_sibling(index: RepoIndex, c, fn_pref: str) -> bool:
         fc = index.func(REPR, f'{fn_pref}_grid_object_representation_convert')
         if cv is None:
             return False
-        got, _ = channels(cv, index)
+        got, _ = channels(cv, index, cross=(fc.name,))
         ref, _ = channels(fc, index)
         # the set the class's `space` hands to the space function, as the constructor builds it
         probe = ast.parse('def probe(self):\n    return self._grid_object_types').body[0]
@@ -328,8 +356,8 @@ def _same_channels_as_sibling(index: RepoIndex, c, fn_pref: str) -> bool:
     except AnalysisError:
         return False
     from ..view import view
-    node = view(index, cv)[0]
-    iters = {src(n.args[0].generators[0].iter) for n in ast.walk(node)
+    node, vw, _ = view(index, cv, cross=(fc.name,))
+    iters = {src(vw.expand(n.args[0].generators[0].iter)) for n in ast.walk(node)
              if classify_max(n) in ('T', 'S')}
     return len(got) == len(ref) and all(a == b for a, b in zip(got, ref)) and \
         iters == {types_text}
@@ -388,10 +416,22 @@ def type_sets(index: RepoIndex, rep, rule: str) -> None:
                 continue
             fs = src(n.func)
             key = next((src(k.value) for k in n.keywords if k.arg == 'key'), '')
+            def set_of(e_: ast.AST) -> str:
+                # `set(S)` of something that already is a set denotes S
+                x = w.expand(e_)
+                while isinstance(x, ast.Call) and src(x.func) in ('set', 'frozenset') and \
+                        len(x.args) == 1 and not x.keywords and (
+                            isinstance(x.args[0], (ast.Set, ast.SetComp)) or
+                            (isinstance(x.args[0], ast.BinOp) and
+                             isinstance(x.args[0].op, ast.BitOr)) or
+                            (isinstance(x.args[0], ast.Call) and
+                             src(x.args[0].func) in ('set', 'frozenset'))):
+                    x = x.args[0]
+                return src(x)
             if fs.endswith('_sorted_object_types') or (fs == 'sorted' and 'type_index()' in key):
-                type_args.append(src(w.expand(n.args[0])))
+                type_args.append(set_of(n.args[0]))
             elif fs.endswith('_sorted_colors') or (fs == 'sorted' and key.endswith('.value')):
-                colour_args.append(src(w.expand(n.args[0])))
+                colour_args.append(set_of(n.args[0]))
         inner = extra.strip('{}').split(', ')
         good_t = {f'set({sp_attr}.object_types) | {{{", ".join(p_)}}}'
                   for p_ in itertools.permutations(inner)}
